@@ -21,6 +21,8 @@ pub fn run_case(prop: &'static str, case: &Case) -> RunOut {
     let slot2 = slot.clone();
     let case2 = case.clone();
     crate::exec::ESCALATED.with(|e| *e.borrow_mut() = None);
+    // objects of an abandoned execution must not be dropped outside of it: leak them
+    crate::profiles4::forget_stale();
     let sched = SeededScheduler::new(case.cfg.strategy.clone(), case.cfg.sched_seed);
     let mut config = shuttle::Config::new();
     config.stack_size = 1 << 20;
